@@ -27,6 +27,11 @@ pub struct Case {
     pub tiles: Option<Vec<usize>>,
     pub jit: bool,
     pub threads: u8,
+    /// perspective along z in thousandths: bottom row (0, 0, p, 1) of
+    /// world_to_model (what the viewers build), limited so that the
+    /// homogeneous coordinate stays positive over the whole grid
+    #[serde(default)]
+    pub persp: u16,
 }
 
 pub struct P;
@@ -80,7 +85,16 @@ fn run<F: MathFunction + RenderHints>(case: &Case, cx: &mut Cx) -> CheckResult {
     let shape = Shape::<F>::new(&ctx, root).unwrap();
     let (w, h, d) = case.size;
     let size = VoxelSize::new(w, h, d);
-    let w2m = world_to_model(&case.xform);
+    let mut w2m = world_to_model(&case.xform);
+    if case.persp > 0 {
+        // world z spans +- d / min(w, h, d)
+        let zmax = d as f32 / (w.min(h).min(d) as f32);
+        let p = (case.persp as f32 / 1000.0).min(0.8 / zmax);
+        let mut persp = Matrix4::identity();
+        persp[(3, 2)] = p;
+        w2m = w2m * persp;
+        cx.ev.count("perspective_views");
+    }
     let cfg = RenderConfig {
         image_size: size,
         world_to_model: w2m,
@@ -250,6 +264,56 @@ fn run<F: MathFunction + RenderHints>(case: &Case, cx: &mut Cx) -> CheckResult {
             .eval_with_transform(&gtape, &xs, &ys, &zs, &mat)
             .map_err(|e| Fail::new("grad-eval-error", format!("{e:?}")))?;
         let g = g.to_vec();
+        // independent of the library's Grad transform: the model-space
+        // gradient (unit seeds at the transformed position, no matrix) pushed
+        // through the Jacobian of the voxel -> model map, computed in f64 by
+        // the quotient rule
+        let qs: Vec<(f32, f32, f32)> = surface
+            .iter()
+            .map(|s| <f32 as Transformable>::transform(s.1 as f32, s.2 as f32, s.3 as f32, &mat))
+            .collect();
+        let qx: Vec<Grad> = qs.iter().map(|q| Grad::new(q.0, 1.0, 0.0, 0.0)).collect();
+        let qy: Vec<Grad> = qs.iter().map(|q| Grad::new(q.1, 0.0, 1.0, 0.0)).collect();
+        let qz: Vec<Grad> = qs.iter().map(|q| Grad::new(q.2, 0.0, 0.0, 1.0)).collect();
+        let gm = ge
+            .eval(&gtape, &qx, &qy, &qz)
+            .map_err(|e| Fail::new("grad-eval-error", format!("{e:?}")))?
+            .to_vec();
+        for (n, s) in surface.iter().enumerate() {
+            let px = data[s.0];
+            let p = [s.1 as f64, s.2 as f64, s.3 as f64, 1.0];
+            let m = |r: usize, c: usize| mat[(r, c)] as f64;
+            let wq: f64 = (0..4).map(|c| m(3, c) * p[c]).sum();
+            let q: Vec<f64> = (0..3).map(|r| (0..4).map(|c| m(r, c) * p[c]).sum::<f64>() / wq).collect();
+            let gmod = [gm[n].dx as f64, gm[n].dy as f64, gm[n].dz as f64];
+            for k in 0..3 {
+                let terms: Vec<f64> = (0..3).map(|i| gmod[i] * (m(i, k) - q[i] * m(3, k)) / wq).collect();
+                let want: f64 = terms.iter().sum();
+                let mag: f64 = terms.iter().map(|t| t.abs()).sum();
+                let got = px.normal[k] as f64;
+                if !(want.is_finite() && got.is_finite() && mag.is_finite()) {
+                    cx.ev.count("chain_rule_normals_skipped_non_finite");
+                    continue;
+                }
+                cx.ev.count("chain_rule_normal_components_checked");
+                if (got - want).abs() > 1e-3 * mag + 1e-6 {
+                    let (tx, ty, tz) = qs[n];
+                    flat.eval_xyz(tx, ty, tz, &mut vals);
+                    if flat.taint(&vals)[ri] {
+                        cx.ev.count("normals_skipped_tainted");
+                        continue;
+                    }
+                    fail!(
+                        "normal-chain-rule",
+                        "pixel ({},{}) depth {}: normal component {k} is {got} but the model-space gradient {:?} through the Jacobian of the view map gives {want} (sum of magnitudes {mag})",
+                        s.1,
+                        s.2,
+                        s.3 + 1,
+                        gmod
+                    );
+                }
+            }
+        }
         for (n, s) in surface.iter().enumerate() {
             let px = data[s.0];
             let e = [g[n].dx, g[n].dy, g[n].dz];
@@ -309,14 +373,16 @@ impl Prop for P {
             prop_oneof![1 => Just(None), 3 => tile_list_max(64).prop_map(Some)],
             any::<bool>(),
             prop_oneof![4 => Just(0u8), 2 => Just(1u8), 1 => 2u8..=5],
+            prop_oneof![3 => Just(0u16), 1 => Just(300u16), 1 => Just(10u16), 2 => 1u16..=500],
         )
-            .prop_map(|(shape, size, xform, tiles, jit, threads)| Case {
+            .prop_map(|(shape, size, xform, tiles, jit, threads, persp)| Case {
                 shape,
                 size,
                 xform,
                 tiles,
                 jit,
                 threads,
+                persp,
             })
             .boxed()
     }
